@@ -23,7 +23,7 @@
 static ep_t P, Q, R, P0, Q0, T, G;
 static bn_t K, M, K0, M0, N, H;
 static ep_t TAB[RLC_EP_TABLE_MAX];
-#define LOT_MAX 24
+#define LOT_MAX 96
 static ep_t LP[LOT_MAX], LP0[LOT_MAX];
 static bn_t LK[LOT_MAX], LK0[LOT_MAX];
 static dig_t LD[LOT_MAX];
@@ -471,6 +471,12 @@ static void do_probe(void) {
 		vh_int("dep", (long)RLC_DEPTH);
 		vh_int("dgb", (long)RLC_DIG);
 		vh_int("add", (long)EP_ADD);
+#if defined(EP_ENDOM)
+		if (ep_curve_is_endom()) {
+			/* the constants of the GLV decomposition: inputs for the generator's rounding-boundary scalars */
+			vh_bn("v10", (bn_st *)&ep_curve_get_v1()[0]); vh_bn("v20", (bn_st *)&ep_curve_get_v2()[0]);
+		}
+#endif
 	}
 	ev_end();
 }
